@@ -321,10 +321,11 @@ func (c *Ctx) ruleTypeInfoHelpers() {
 	P := c.P
 	n := 0
 	for _, name := range []string{"ExtractTypeInfo", "ExtractTypeName"} {
-		fn := P.LookupFunc("util", name)
-		if fn == nil {
+		top := P.LookupFunc("util", name)
+		if top == nil {
 			continue
 		}
+		for _, fn := range P.StaticClosure(top) {
 		allInstrs(fn, func(b *ssa.BasicBlock, ins ssa.Instruction) {
 			ta, ok := ins.(*ssa.TypeAssert)
 			if !ok || typeStr(ta.AssertedType) != "*go/types.Named" {
@@ -356,6 +357,7 @@ func (c *Ctx) ruleTypeInfoHelpers() {
 			}
 			c.check(detail == "", "ALIAS/TYPEINFO", "util."+name, P.Pos(ta.Pos()), "Named assertion on Unalias(t) and Unalias(ptr.Elem())", detail)
 		})
+		}
 	}
 	c.floor("*types.Named assertions in util type helpers", n, 2)
 }
